@@ -70,6 +70,7 @@ type segment struct {
 }
 
 type layoutResult struct {
+	Wrong    []string // definite layout violations (a write that does not fit its window)
 	Total    lin
 	Segments []segment
 	Problems []string
@@ -93,6 +94,36 @@ type layoutEval struct {
 	ints   map[types.Object]lin // symbolic int locals
 	buf    types.Object
 	res    *layoutResult
+}
+
+// wrong records a definite violation (as opposed to a shape outside the fragment).
+func (le *layoutEval) wrong(pos token.Pos, format string, a ...any) {
+	le.res.Wrong = append(le.res.Wrong, le.r.P.Pos(pos)+": "+fmt.Sprintf(format, a...))
+}
+
+// fits: a write of w bytes into a window of the given width. A wider window is harmless (the
+// write still covers exactly [start, start+w)); a narrower one is a definite error.
+func (le *layoutEval) fits(pos token.Pos, what string, width lin, w int) bool {
+	if width.eq(lin{"": w}) {
+		return true
+	}
+	if n, ok := constOf(width); ok {
+		if n > w {
+			return true
+		}
+		le.wrong(pos, "%s needs %d bytes but its window has only %d", what, w, n)
+		return false
+	}
+	return true // open-ended window (buf[k:]): the write covers [k, k+w)
+}
+
+func constOf(l lin) (int, bool) {
+	for k, v := range l {
+		if k != "" && v != 0 {
+			return 0, false
+		}
+	}
+	return l[""], true
 }
 
 func (le *layoutEval) problem(pos token.Pos, format string, a ...any) {
@@ -202,8 +233,8 @@ func (le *layoutEval) call(call *ast.CallExpr) (lin, bool) {
 			le.problem(call.Pos(), "PutBytes target is not the key buffer")
 			return nil, false
 		}
-		if width != nil && !width.eq(lin{"": 2}) {
-			le.problem(call.Pos(), "key group is written into a %s-byte window (needs 2)", width)
+		if width != nil {
+			le.fits(call.Pos(), "the key group", width, 2)
 		}
 		recv := ""
 		if sel, ok := ast.Unparen(call.Fun).(*ast.SelectorExpr); ok {
@@ -236,8 +267,8 @@ func (le *layoutEval) call(call *ast.CallExpr) (lin, bool) {
 				le.problem(call.Pos(), "unsupported %s target", sel.Sel.Name)
 				return nil, false
 			}
-			if width != nil && !width.eq(lin{"": w}) {
-				le.problem(call.Pos(), "%s writes %d bytes into a %s-byte window", sel.Sel.Name, w, width)
+			if width != nil {
+				le.fits(call.Pos(), sel.Sel.Name, width, w)
 			}
 			val := stripConv(le.info, call.Args[1])
 			vs := le.name(val)
@@ -255,8 +286,8 @@ func (le *layoutEval) call(call *ast.CallExpr) (lin, bool) {
 			le.problem(call.Pos(), "PutTimeBytes target is not the key buffer")
 			return nil, false
 		}
-		if width != nil && !width.eq(lin{"": 8}) {
-			le.problem(call.Pos(), "timestamp is written into a %s-byte window (needs 8)", width)
+		if width != nil {
+			le.fits(call.Pos(), "the timestamp", width, 8)
 		}
 		le.seg(call.Pos(), start, lin{"": 8}, "TIME("+le.name(call.Args[1])+")")
 		return nil, true
@@ -379,6 +410,9 @@ func (r *Run) checkLayout(f *prog.FuncInfo, want []segment) *layoutResult {
 	res := r.extractLayout(f)
 	name := f.Name()
 	r.Site(f.Decl.Pos(), name+": key layout "+renderLayout(res))
+	for _, w := range res.Wrong {
+		r.Fail(name+":window", f.Decl.Pos(), nil, "%s: %s: the write panics or the key is laid out differently from what the decoders and prefix scans expect", name, w)
+	}
 	for _, p := range res.Problems {
 		r.Error("undecided: %s: %s", name, p)
 	}
